@@ -14,7 +14,11 @@ Determinism under machine load (the check must never alarm because of scheduling
     property), so such pieces are glued to the piece containing the stop point (one
     write() = one atomic arrival) unless they are LATE;
   * what the call left unread is collected with a sentinel protocol (see impl_c12.py),
-    not with a grace period.
+    not with a grace period;
+  * the INITIAL STATE of a case (attribute set + unread input in the queue when the call is
+    made) is entered with a staging protocol (impl_c12.enter_initial_state): the type-ahead
+    is written while nothing is echoed, and the call starts only after the driver has
+    counted every byte in the tty's input queue (FIONREAD) — no sleeps.
 """
 from __future__ import annotations
 
@@ -150,9 +154,18 @@ class Session:
         while select.select([self.master], [], [], 0)[0]:
             self.read_master()
         self.garbage.clear()
-        cmd = {k: case[k] for k in ("op", "timeout", "enabled", "swap", "env", "more", "request", "cache", "calls")
+        cmd = {k: case[k] for k in ("op", "timeout", "enabled", "swap", "env", "more", "request", "cache", "calls",
+                                    "init")
                if k in case}
         self.send(cmd)
+        if case.get("init") and case["init"].get("typeahead"):
+            # INITIAL STATE: unread input in the queue before the call is made.  The driver has
+            # put the tty into a no-echo, non-canonical staging mode; it goes on (applies the
+            # case's attribute set, then calls) once it has counted every byte in the queue.
+            st = self.recv(HARD_CAP)
+            if not st.get("staged"):
+                raise RuntimeError(f"protocol: expected staged, got {st}")
+            os.write(self.master, bytes(case["init"]["typeahead"]))
         rounds, late, result = [], [], None
         reqbuf = bytearray()
         t_start = time.monotonic()
@@ -204,7 +217,8 @@ class Session:
         os.write(self.master, SENTINEL)
         lo = self.recv(HARD_CAP)
         writes = result.get("writes", [])
-        timing_ok = len(writes) == len(rounds) and bool(lo.get("sentinel_seen"))
+        timing_ok = (len(writes) == len(rounds) and bool(lo.get("sentinel_seen"))
+                     and bool(result.get("staged_ok", True)))
         for r, tw in zip(rounds, writes):
             # every timely burst really was timely, with a wide margin
             if r["t_done"] - tw > T / 2 or r["t_done"] < tw:
